@@ -115,6 +115,29 @@ def gen_cases(rng, tier):
                 ops.append(["q_bin", o, f"3/2@{pu}", f"4@{cu}", MODE])
                 ops.append(["q_bin", o, f"4@{cu}", f"3/2@{pu}", MODE])
         cases.append(_qty.case_of(ctx, ops, ["mix"]))
+    # derived types over a base type WITHOUT reference unit (money per mass,
+    # temperature per duration): their units carry factors from their
+    # definitions, but no two different ones are convertible - quantities in
+    # different units never add, subtract or order, and are unequal
+    from props import _money
+    ops = [["load_predefined"]] + _money.setup(["EUR", "USD"])
+    ops.append(["decl_class", "PricePerMass", "c:Money^1;c:Mass^-1", "-", "0", "-"])
+    ops.append(["decl_class", "Heating", "c:Temperature^1;c:Duration^-1", "-", "0", "-"])
+    syms = []
+    for cur in ("EUR", "USD"):
+        for xu in ("g", "kg"):
+            ops.append(["derive_unit", "PricePerMass", f"{cur},{xu}", "-"]); syms.append(f"{cur}/{xu}")
+    for tu in ("K", "°C"):
+        for du in ("s", "h"):
+            ops.append(["derive_unit", "Heating", f"{tu},{du}", "-"]); syms.append(f"{tu}/{du}")
+    n0 = len(ops)
+    for u in syms:
+        for v in syms:
+            for o in rng.sample(BINOPS, 4):
+                ops.append(["q_bin", o, f"{rat(Fraction(rng.randint(-9, 9), 2))}@{u}",
+                            f"{rat(Fraction(rng.randint(1, 9)))}@{v}", MODE])
+    cases.append({"ops": ops, "fork": True, "ctx": None, "refless_derived": True, "nsetup": n0,
+                  "tags": ["refless-derived"]})
     return cases
 
 
@@ -123,6 +146,28 @@ def search_cases(rng, focus, broken):
 
 
 def oracle(case, impl):
+    if case.get("refless_derived"):
+        fails = [{"site": "setup", "msg": f"{o} -> {out}"}
+                 for o, out in list(zip(case["ops"], impl))[:case["nsetup"]] if not out.startswith("ok")]
+        cls_of = lambda u: "PricePerMass" if u[:3] in ("EUR", "USD") else "Heating"
+        for o, out in list(zip(case["ops"], impl))[case["nsetup"]:]:
+            a, _, u = o[2].rpartition("@")
+            b, _, v = o[3].rpartition("@")
+            x, y = _qty.tok_value(a), _qty.tok_value(b)
+            if cls_of(u) != cls_of(v):
+                exp = {"eq": "ok false", "ne": "ok true"}.get(o[1], "err IncompatibleUnitsError")
+            elif u != v:
+                exp = {"eq": "ok false", "ne": "ok true"}.get(o[1], "err UnitConversionError")
+            elif o[1] in ("add", "iadd"):
+                exp = f"ok qty {rat(x + y)}@{u}:{cls_of(u)}"
+            elif o[1] in ("sub", "isub"):
+                exp = f"ok qty {rat(x - y)}@{u}:{cls_of(u)}"
+            else:
+                import operator
+                exp = "ok " + ("true" if getattr(operator, o[1])(x, y) else "false")
+            if out != exp:
+                fails.append({"site": "mix:reference-less-derived", "msg": f"{o} -> {out}, expected {exp}"})
+        return fails
     ctx = _qty.ctx_of(case)
     fails = _qty.setup_failures(case, impl)
     for o, out in list(zip(case["ops"], impl))[case["nsetup"]:]:
